@@ -169,12 +169,13 @@ def builder_block(chk, thorough):
             if "builder_build_panic" in x:
                 chk.violation("C01/builder/build-panic/%s" % tag,
                               "build() panicked on a circuit assembled from add_virtual_target / constant / arithmetic / random_access / add_gate: %s" % x["builder_build_panic"][:300],
-                              {"builder_shape": [nw, nr, nc], "run": x["run"], "trace": tp, "expected": "build succeeds"})
+                              {"builder_shape": [nw, nr, nc], "builder_budget": [runs, ln], "run": x["run"], "trace": tp,
+                           "expected": "build succeeds"})
         for b in summ["sem_bad"][:20]:
             kind = "arith" if "arith" in b else "ra" if "ra" in b else "witness" if ("witness_error" in b or "witness_panic" in b) else "unsatisfied"
             chk.violation("C01/builder/meaning/%s/%s" % (tag, kind),
                           "a builder call's result does not have the value the call denotes under the library's own witness generation, or the generated assignment violates the circuit: %s" % json.dumps(b)[:400],
-                          {"builder_shape": [nw, nr, nc], "observed": b, "trace": tp,
+                          {"builder_shape": [nw, nr, nc], "builder_budget": [runs, ln], "observed": b, "trace": tp,
                            "expected": "value(result) = c0*x*y + c1*z (arithmetic) / list[index] (random_access); all gates and copies satisfied"})
         rt = common.tlc("BuilderTrace", cfg="BuilderTrace", workers=1, timeout=2400, env={"TRACE": tp}, tag="btrace" + tag)
         info = common.tagged(rt.prints, "BTRACE")
@@ -348,6 +349,19 @@ def replay(path):
         wo = common.vh(["wgen", "--in", fp], binname=BIN)[-1]
         print("expected:", p["expected"], "| re-run:", json.dumps(wo)[:600])
         return 1 if wo["mismatches"] else 0
+    if "builder_shape" in p:
+        # the builder driver is deterministic for (seed, shape, budget): re-run it and look for the recorded run
+        nw, nr, nc = p["builder_shape"]
+        runs, ln = p.get("builder_budget", [24, 70])
+        os.environ["VERIF_SEED"] = str(p.get("seed", 1))
+        tp = os.path.join(common.OUT, "c01_replay_builder.ndjson")
+        out = common.vh(["builder", "--out", tp, "--nw", str(nw), "--nr", str(nr), "--nc", str(nc), "--runs", str(runs),
+                         "--len", str(ln)], binname=BIN, env={"RAYON_NUM_THREADS": "3"}, timeout=3000)
+        bad = [x for x in out if "builder_build_panic" in x] + out[-1]["sem_bad"]
+        print("expected :", p.get("expected"))
+        print("recorded :", json.dumps(p.get("observed", p.get("run")))[:600])
+        print("re-run   :", json.dumps(bad[:3])[:1200], "(%d deviations)" % len(bad))
+        return 1 if bad else 0
     s = p["scenario"]
     fp = os.path.join(common.OUT, "c01_replay.ndjson")
     common.write_ndjson(fp, [s])
